@@ -135,6 +135,8 @@ pub fn oracle(cfg: &Cfg, run: &Run) -> Vec<(String, String)> {
                 else if *len != want { out.push(("schema.shape".into(), format!("draw {k}: statistic {n} has length {len}, declared dims {:?} (= {want})", s.dims[j]))); }
             }
             if s.events[j].as_deref() == Some("divergence") && v.is_some() && !row.diverging { out.push(("schema.event".into(), format!("draw {k}: divergence statistic {n} present on a non-divergent draw"))); }
+            if s.events[j].as_deref() == Some("transformation_update") && v.is_some() && row.upd_id.is_none() { out.push(("schema.event".into(), format!("draw {k}: transformation-update statistic {n} present on a draw that reports no transformation update (transformation_update_id absent)"))); }
+            if let Some(ev) = s.events[j].as_deref() { if ev != "divergence" && ev != "transformation_update" { out.push(("schema.event_kind".into(), format!("statistic {n} declares the unknown event dimension {ev}"))); } }
         }
         let present = |n: &str| row.cells.iter().find(|c| c.0 == n).map(|c| c.1.is_some()).unwrap_or(false);
         // a statistic governed by a store_* option is present exactly when its option is on
